@@ -19,6 +19,9 @@ pub uninterp spec fn f64_real(x: f64) -> real;
 /// sign bit clear
 pub uninterp spec fn f64_is_pos(x: f64) -> bool;
 
+/// IEEE `==` on floats (false on NaN, true for 0.0 == -0.0)
+pub uninterp spec fn f64_eq(a: f64, b: f64) -> bool;
+
 pub open spec fn cmp_real(a: real, b: real) -> core::cmp::Ordering {
     if a < b {
         core::cmp::Ordering::Less
